@@ -86,6 +86,7 @@ class State(object):
         s.notes = list(self.notes)
         s.qidx = self.qidx
         s.qinfo = self.qinfo
+        s.cond_ctx = getattr(self, 'cond_ctx', False)
         s.ofields = dict(self.ofields)
         s.epoch = self.epoch
         return s
@@ -602,6 +603,10 @@ class Executor(object):
                 r = ite(t, r, v) if is_and else ite(t, v, r)
             return [(st, r)]
 
+        merged = self.boolop_pure(st, node, is_and)
+        if merged is not None:
+            return [(st, merged)]
+
         def go(s, i):
             def k(s2, v):
                 if i == len(node.values) - 1:
@@ -616,6 +621,43 @@ class Executor(object):
                 return res
             return self.bind(self.ev(s, node.values[i]), k)
         return go(st, 0)
+
+    def boolop_pure(self, st, node, is_and):
+        """`a and b and c` / `a or b` whose operands are side-effect free and cannot raise under the short-circuit
+        assumptions: one merged truth value instead of one path per operand (Python's result object is replaced by
+        its truth value, which is all an `if`/`not`/`and`/`or` context observes; when every operand is a bool the
+        value itself is that bool).  Returns None when the operands are not pure -> forking evaluation."""
+        probe = st.fork()
+        ts = []
+        allbool = True
+        for vn in node.values:
+            n_tr, ep, heap_ids = len(probe.trace), probe.epoch, {r: id(f) for r, f in probe.heap.items()}
+            n_pc = len(probe.pc)
+            try:
+                outs = self.ev(probe, vn)
+            except Unsupported:
+                return None
+            if len(outs) != 1 or isinstance(outs[0][1], Raised) or outs[0][0] is not probe:
+                return None
+            if len(probe.trace) != n_tr or probe.epoch != ep or len(probe.heap) != len(heap_ids):
+                return None
+            v = outs[0][1]
+            if not isinstance(v, VBool):
+                allbool = False
+            t = self.truth(probe, v)
+            ts.append((t, probe.pc[n_pc:]))
+            probe.assume(t if is_and else z3.Not(t))
+            if not self.feasible(probe):
+                break
+        if not allbool and not getattr(st, 'cond_ctx', False):
+            return None
+        # definitional facts added while evaluating an operand (e.g. fdiv facts) hold unconditionally
+        for t, facts in ts:
+            for f in facts:
+                if not any(f.eq(x) for x in st.pc):
+                    st.pc.append(f)
+        terms = [t for t, _ in ts]
+        return VBool(z3.And(terms) if is_and else z3.Or(terms))
 
     def ev_UnaryOp(self, st, node):
         def k(s, v):
@@ -1630,9 +1672,20 @@ class Executor(object):
                 raise Unsupported('raise of %r' % (v,))
         return res
 
+    def ev_cond(self, st, test):
+        prev = getattr(st, 'cond_ctx', False)
+        st.cond_ctx = True
+        try:
+            outs = self.ev(st, test)
+        finally:
+            st.cond_ctx = prev
+        for s, _ in outs:
+            s.cond_ctx = prev
+        return outs
+
     def ex_If(self, st, stmt):
         res = []
-        for s, v in self.ev(st, stmt.test):
+        for s, v in self.ev_cond(st, stmt.test):
             if isinstance(v, Raised):
                 res.append((s, (RAISE, v)))
                 continue
@@ -2125,6 +2178,7 @@ class Executor(object):
                     if b:
                         starts.append(s3)
         dec = linv.get('decreases')
+        n_trace0 = len(it.trace)
         for s0 in starts:
             if dec is not None:
                 sp = s0.fork()
@@ -2135,6 +2189,7 @@ class Executor(object):
                     if k3 in (NEXT, CONTINUE):
                         check_inv(s3, k + 1, 'preserve')
                         for bt in linv.get('body_trace', []):
+                            s3.iter_start_trace = n_trace0
                             for oid_, goal_, text_ in bt(self, s3, k):
                                 self.oblige(s3, goal_, '%s.body.%s' % (tag, oid_), 'trace', where, {'clause': text_})
                         if dec is not None:
